@@ -30,7 +30,7 @@ var scalarNamed = []string{"MyInt", "MyI8", "MyU16", "MyStr", "MyBool", "MyF64",
 var oracleOnly = []string{"Node", "Tree", "Mixed", "Big60", "HasBig", "Deep1", "HasIfaceM", "HasChan", "PtrHolder", "UnmVal", "MyBytes", "MySlice", "MyMap", "EmbPtr", "EmbDeep"}
 
 func genLeaf(r *rng.R) *Ty {
-	switch r.Intn(16) {
+	switch r.Intn(17) {
 	case 0:
 		return Leaf(KBool)
 	case 1, 2, 3:
@@ -53,6 +53,8 @@ func genLeaf(r *rng.R) *Ty {
 		return Leaf(KUnm)
 	case 14:
 		return Leaf(KText)
+	case 15:
+		return Named(UnmScalars[r.Intn(len(UnmScalars))])
 	default:
 		return Named(scalarNamed[r.Intn(len(scalarNamed))])
 	}
@@ -90,6 +92,20 @@ func GenTy(r *rng.R, d int) *Ty {
 	case 7:
 		if r.Chance(1, 3) {
 			return Named(oracleOnly[r.Intn(len(oracleOnly))])
+		}
+		if r.Chance(1, 2) {
+			// containers of scalar kinds that carry an unmarshaler (the kind's fast path must not win over the method)
+			u := Named(UnmScalars[r.Intn(len(UnmScalars))])
+			switch r.Intn(5) {
+			case 0, 1:
+				return Slice(u)
+			case 2:
+				return Arr(1+r.Intn(2), u)
+			case 3:
+				return Map(Leaf(KStr), u)
+			default:
+				return Slice(Ptr(u))
+			}
 		}
 		return Named(embNames[r.Intn(len(embNames))])
 	default:
@@ -594,6 +610,21 @@ func (g *igen) value(t *Ty, d int) string {
 			return "[]"
 		}
 		return "{}"
+	}
+	if t.K == KNamed {
+		for _, id := range UnmScalars {
+			if t.Name == id {
+				switch r.Intn(10) {
+				case 0:
+					return g.intLit("i16")
+				case 1:
+					return []string{"true", "false", "null", `"ERR"`, "1.5e3", `""`}[r.Intn(6)]
+				case 2:
+					return g.anyDoc(1)
+				}
+				return g.str()
+			}
+		}
 	}
 	switch t.K {
 	case KBool:
